@@ -185,6 +185,11 @@ impl<T: Bounded> BVH<T> {
                 completed.insert(parent_id, parent_node);
             }
         }
+        // Lista con un único nodo terminal (sin padre): es la raíz del árbol
+        if let Some(TreeElement(_, Leaf, _, None, Some(elements))) = node_list.pop() {
+            let aabb = elements.aabb();
+            return Self::new(Some(BVHNode::Leaf { aabb, elements }));
+        }
         Self::new(completed.remove(&0_usize))
     }
 
